@@ -2,7 +2,7 @@
 # usage: tools/mutcheck.sh <patch-file|-e 'sed-expr' file> <Cxx> [more check args]
 # Runs a check against a scratch copy of /repo/lib with a mutation applied (never touches /repo).
 set -e
-D=$(mktemp -d /tmp/mut.XXXXXX)
+D=$(mktemp -d /tmp/vm_$$_XXXXXX)
 trap 'rm -rf "$D"' EXIT
 cp -r /repo/lib "$D/lib"
 find "$D/lib" -name '__pycache__' -prune -exec rm -rf {} + 2>/dev/null || true
